@@ -282,7 +282,7 @@ func Explore(cfg Config, body func(*Ctx)) (res *Result) {
 		cfg.Samples = 6
 	}
 	if cfg.MaxShrink == 0 {
-		cfg.MaxShrink = 400
+		cfg.MaxShrink = 20000
 	}
 	defer func() {
 		if r := recover(); r != nil {
